@@ -122,6 +122,11 @@ impl Expression {
   pub fn type_is_str(&self) -> bool {
     matches!(self, Self::StringName(_) | Self::Variable(_, Type::Id(TypeNameId::STR)))
   }
+
+  /// Anything that is not a plain i32: comparing it in JS needs `===`, since `[1] == 1` is true.
+  fn may_be_reference(&self) -> bool {
+    !matches!(self, Self::Int32Literal(_) | Self::Variable(_, Type::Int32))
+  }
 }
 
 pub const ZERO: Expression = Expression::Int32Literal(0);
@@ -292,9 +297,15 @@ impl Statement {
               e2.pretty_print(collector, heap, symbol_table, str_table);
               collector.push_str("[1]");
             } else {
+              let is_ref_cmp = matches!(operator, BinaryOperator::EQ | BinaryOperator::NE)
+                && (e1.may_be_reference() || e2.may_be_reference());
               e1.pretty_print(collector, heap, symbol_table, str_table);
               collector.push(' ');
               collector.push_str(operator.as_str());
+              if is_ref_cmp {
+                // identity, as `ref.eq` in the WebAssembly backend
+                collector.push('=');
+              }
               collector.push(' ');
               e2.pretty_print(collector, heap, symbol_table, str_table);
             }
